@@ -13,6 +13,7 @@ from .. import effects, tracking
 from ..pat import P, K, V, C, F, AGG, OKP, BIN, CLO, TUP, FN, ANY, ALT, match, closure_ret, unref
 
 CONFIGS = ("FULL", "XEN")
+THOROUGH_CONFIGS = ("MIN",)
 TRUSTED = [
     "codegen: a volatile read/write of a machine-width integer at an aligned address is one access",
     "core: ptr::read_volatile / write_volatile, cmp::min; atomics' load/store honour the Ordering passed",
@@ -172,7 +173,7 @@ def run(ctx, progs):
                 seen, _pm = prog.reach([b.id])
                 bad = [x for x in seen if x in other_prims]
                 ctx.ob("R6.7.route", b.key, not bad and any(strip_generics(x).endswith("copy_slice_impl::copy_slice") for x in seen), b.where(), "object route funnels into copy_slice only")
-        ctx.floor("R6.7.routes", n, 14)
+        ctx.floor("R6.7.routes", n, 14, MIN=6)
         # ------------------------------------------------------------ R6.8 atomic route forwards the ordering
         k = 0
         for b in prog.bodies:
